@@ -8,7 +8,7 @@ wt="/tmp/seedrepo-$$"
 git -C /repo worktree add -q --detach "$wt" HEAD || exit 2
 cleanup() { git -C /repo worktree remove --force "$wt" >/dev/null 2>&1; rm -rf "/tmp/seedout-$$"; }
 trap cleanup EXIT
-(cd "$wt" && git apply "$src/patch.diff") || { echo "patch does not apply"; exit 2; }
+"$(dirname "$0")/apply_seed.sh" "$wt" "$src/patch.diff" || { echo "patch does not apply"; exit 2; }
 cd "$VROOT"
 VERIF_OUT_DIR="/tmp/seedout-$$" VERIF_REPO="$wt" VERIF_SEED="${VERIF_SEED:-1}" ./check.sh "$prop" "$tier" > "/tmp/try-$prop-$$.log" 2>&1
 rc=$?
